@@ -38,3 +38,35 @@ Proof.
     intros k0 e He. destruct (Hr k0 e He) as [[A B] C]. split; [split; [exact A|]|exact C]. assert (0 < 2 ^ 24)%Z by (apply Z.pow_pos_nonneg; lia). lia.
   - exact (C03_probing_memory_table_invariants buckets n V t M Hn Inv Hnd Hd Hr Hl Hb Hnz Hinj).
 Qed.
+
+(* the two LOADED files of the same ARPA model -- a probing file and a trie / array-trie file -- return the same probability for every
+   history and every vocabulary word: both loaded tables are pointwise the memory tables of C03_memory_structures_equal_probabilities *)
+Theorem loaded_files_equal_probabilities :
+  forall buckets (array : bool) cfg N V (tp tt : atable) pz M slots img rest1 rest2,
+  (2 <= N)%nat -> 0 <= V < 2 ^ 32 -> 0 <= cfg ->
+  TInv N (Defs.alookup tp) M -> NoDup (map fst tp) -> (forall w, Defs.alookup tp [w] <> None <-> Z.of_N w < V) ->
+  (forall k e, Defs.alookup tp k = Some e -> - 2 ^ 24 < e_prob e <= 0 /\ - 2 ^ 24 < e_bo e < 2 ^ 24) ->
+  (forall k e, Defs.alookup tp k = Some e -> length k = N -> e_bo e = 0) ->
+  (forall j, (2 <= j <= N)%nat -> (length (order_entries tp j) < nth (j - 2) buckets 0)%nat) ->
+  (forall k, over_vocab N V k -> hash_key k <> 0) ->
+  (forall k1 k2, over_vocab N V k1 -> over_vocab N V k2 -> hash_key k1 = hash_key k2 -> k1 = k2) ->
+  length buckets = (N - 1)%nat -> V <= Z.of_nat slots -> probing_image tp slots buckets = Some img ->
+  TInv N (Defs.alookup tt) M -> NoDup (map fst tt) -> (forall w, Defs.alookup tt [w] <> None <-> Z.of_N w < V) ->
+  (forall k e, Defs.alookup tt k = Some e -> - 2 ^ 24 < e_prob e < 2 ^ 24 /\ - 2 ^ 24 < e_bo e < 2 ^ 24) ->
+  (forall k e, Defs.alookup tt k = Some e -> (2 <= length k)%nat -> e_prob e <= 0) ->
+  (forall k e, Defs.alookup tt k = Some e -> length k = N -> e_bo e = 0) ->
+  Z.of_nat (N * length tt) < 2 ^ 57 ->
+  forall ctx w, Z.of_N w < V ->
+  r_prob (fst (full_score_forgot N (file_ptable buckets N V (parse_probing slots buckets (img ++ rest1))) Probing ctx w)) =
+  r_prob (fst (full_score_forgot N (file_table array cfg N V (trie_counts N tt) (trie_image array cfg N tt pz ++ rest2)) Trie ctx w)).
+Proof.
+  intros buckets array cfg N V tp tt pz M slots img rest1 rest2 HN HV Hc Ip Np Dp Rp Lp Rm Hz Hi Hlen Hslots Himg It Nt Dt Rt Gt Lt St ctx w Hw.
+  assert (Rp' : forall k e, Defs.alookup tp k = Some e -> - 2 ^ 24 < e_prob e < 2 ^ 24 /\ - 2 ^ 24 < e_bo e < 2 ^ 24).
+  { intros k e He. destruct (Rp k e He) as [[A B] C]. split; [split; [exact A|]|exact C]. assert (0 < 2 ^ 24) by (apply Z.pow_pos_nonneg; lia). lia. }
+  destruct (same_table_same_answers N _ (pmem_table buckets N V tp) Probing null_state w ctx
+              (fun k => file_ptable_is_pmem_table tp buckets N V slots img rest1 HN Hlen Hslots Np Dp Rp' Himg k)) as [_ [E1 _]].
+  destruct (same_table_same_answers N _ (mem_table array cfg N V tt pz) Trie null_state w ctx
+              (fun k => file_table_is_mem_table array cfg N V tt pz M HN HV Hc It Nt Dt Rt St rest2 k)) as [_ [E2 _]].
+  rewrite E1, E2.
+  exact (C03_memory_structures_equal_probabilities buckets array cfg N V tp tt pz M HN HV Hc Ip Np Dp Rp Lp Rm Hz Hi It Nt Dt Rt Gt Lt St ctx w Hw).
+Qed.
